@@ -152,6 +152,17 @@ class Slice:
                     self.local_calls.append(k)
             return
         if o in ("copy", "move"):
+            # field-sensitive through a tuple / struct literal: `(a, b).0` is `a`
+            if op["p"] and isinstance(op["p"][0], list) and op["p"][0][0] == "f" and not self.v.is_arg(op["l"]):
+                d = self.v.single_def(op["l"])
+                if d is not None and d[1] != "term" and d[2]["rv"]["r"] == "agg" and d[2]["rv"].get("kind") in ("tuple", "adt") \
+                        and op["p"][0][1] < len(d[2]["rv"]["ops"]):
+                    inner = d[2]["rv"]["ops"][op["p"][0][1]]
+                    if inner.get("o") in ("copy", "move"):
+                        self.operand({"o": "copy", "l": inner["l"], "p": inner["p"] + op["p"][1:]})
+                    else:
+                        self.operand(inner)
+                    return
             self.local(op["l"])
             for e in op["p"]:
                 if isinstance(e, list) and e[0] == "idx":
